@@ -17,7 +17,7 @@ EXPLANATION = (
     "1/frequency, angular = 2*pi*frequency, direction/spread from (a1,b1) at that index, wavenumber = the dispersion "
     "solver applied to (2*pi*f[index], depth with NaN->inf), wave speed = 2*pi*fp/kp. Decided: argmax (not argmin/"
     "last), mask and fill value, which density is searched (the class's own e), band forwarding, rad/s vs Hz operand, "
-    "depth property vs raw variable. Not decided: tie-breaking beyond the trusted argmax semantics and the 1e-3 "
+    "depth property vs raw variable; the dispersion solver itself (closed forms, Newton update, exit only when all elements meet the relative tolerance) is checked as in C07. Not decided: tie-breaking beyond the trusted argmax semantics and the 1e-3 "
     "dispersion residual (C07)."
 )
 
@@ -97,6 +97,11 @@ def run(ctx):
         envres.check_ext_used(ctx, it, "R04.4", cname)
         ctx.absorb(it)
         ctx.notes.extend(it.unknown_notes[:5])
+    # the peak wavenumber is only as good as the dispersion solver: its closed forms and Newton step (rules shared with C07)
+    from . import c07
+    with ctx.renamed({"R07.1": "R04.5", "R07.2": "R04.5"}):
+        c07.dispersion_rules(ctx)
+    ctx.require_count("R04.5", 14)
     ctx.require_count("R04.1", 4)
     ctx.require_count("R04.2", 12)
     ctx.require_count("R04.3", 10)
